@@ -120,8 +120,8 @@ def n_positional(cls):
 # options: keys named in the docstrings of apply/validate along the MRO, values from a table
 OPTION_VALUES = {
     "collapse": [2, 3, 1, 0, -1, "x", True, 99],
-    "tilesize": [4, 32, 0, -2, "x", 1.5],
-    "chunksize": [4, 1, 0, -3, "x", 2.5],
+    "tilesize": [4, 2, 8, 32, 40, 0, -2, "x", 1.5],
+    "chunksize": [4, 2, 8, 32, 40, 1, 0, -3, "x", 2.5],
     "force": [True, False],
     "verbose": [True],
     "reprod": [True, False],
